@@ -158,10 +158,20 @@ def _gen(draw, spec, mut):
             else:
                 alt.append(v.replace(tzinfo=None))
             return draw(st.sampled_from(alt))
+        if "value" in spec and v.tzinfo is not None and draw(st.integers(0, 2)) == 0:
+            # the same moment written in another UTC offset: equal to the declared value
+            try:
+                return v.astimezone(_dt.timezone(_dt.timedelta(hours=draw(st.sampled_from([-5, 2, 0, 9])),
+                                                               minutes=draw(st.sampled_from([0, 30])))))
+            except (OverflowError, ValueError):
+                return v
         return v
     if t == "date":
-        v = spec["value"] if "value" in spec else draw(specs.dates)
+        v = spec["value"] if "value" in spec else draw(specs.plain_dates)
         if near and mut.take(draw, "date:other"):
+            if isinstance(v, _dt.datetime):
+                return draw(st.sampled_from([v.isoformat(), None, v.date(), v + _dt.timedelta(days=1),
+                                             v + _dt.timedelta(microseconds=1)]))
             alt = [v.isoformat(), None, v.toordinal(),
                    _dt.datetime(v.year, v.month, v.day)]
             if v < _dt.date.max:
@@ -293,8 +303,12 @@ def _gen_str(draw, spec, mut):
         else:
             n = _pick_len(draw, lo, hi, spread=draw(st.sampled_from([0, 3, 3, 35])))
         chars = alpha if alpha else specs.TEXT_ALPHABET
-        fill = "".join(draw(st.lists(st.sampled_from(chars), min_size=n - len(sub),
-                                     max_size=n - len(sub)))) if n - len(sub) > 0 else ""
+        need = n - len(sub)
+        if need > 60:
+            unit = "".join(draw(st.lists(st.sampled_from(chars), min_size=5, max_size=5)))
+            fill = (unit * (need // 5 + 1))[:need]
+        else:
+            fill = "".join(draw(st.lists(st.sampled_from(chars), min_size=need, max_size=need))) if need > 0 else ""
         off = draw(st.integers(0, len(fill)))
         v = fill[:off] + sub + fill[off:]
     if near and mut.take(draw, "str:near"):
@@ -346,9 +360,13 @@ def _gen_list(draw, spec, mut):
     if form in ("untyped", "ellipsis", "typed"):
         lo, hi = _bounds(lf)
         n = _pick_len(draw, lo, hi, spread=3)
-        if n > 60:
+        if n > 400:
             raise Unsat("list too long to build")
-        if form == "typed":
+        if n > 60:
+            # a long list: three members built, then repeated in turn
+            base = [_gen(draw, spec["elem"], mut) if form == "typed" else draw(junk_member) for _ in range(3)]
+            v = [base[i % 3] for i in range(n)]
+        elif form == "typed":
             v = [_gen(draw, spec["elem"], mut) for _ in range(n)]
         else:
             v = [draw(junk_member) for _ in range(n)]
